@@ -24,7 +24,8 @@ ZU, ZD, MA, RG = 1, 2, 4, 8
 
 @st.composite
 def _case(draw):
-    cls = draw(st.sampled_from(["general", "general", "general", "general", "transonic", "transonic", "transonic", "lofted"]))
+    cls = draw(st.sampled_from(["general", "general", "general", "general", "transonic", "transonic", "transonic", "lofted",
+                                "range-at-event", "range-at-event"]))
     cfg = {}
     if cls == "lofted":
         # region found by probing: very low drag, fast, steep, high station, room to fall back into dense air
@@ -48,7 +49,14 @@ def _case(draw):
             cfg["cMinimumVelocity"] = spec["mv"] * draw(st.floats(0.6, 0.98))
         cfg["max_calc_step_size_feet"] = draw(st.sampled_from([0.5, 0.5, 1.0, 2.0]))
         step = R / draw(st.floats(1.0, 30.0))
-    return {"cls": cls, "shot": spec, "R": R, "step": step, "ts": draw(st.sampled_from([0.0, 0.0, 0.02, 0.2])), "config": cfg}
+    case = {"cls": cls, "shot": spec, "R": R, "step": step, "ts": draw(st.sampled_from([0.0, 0.0, 0.02, 0.2])), "config": cfg}
+    if cls == "range-at-event":
+        # the requested range is placed inside the step in which one of the shot's events happens (decided by the check from
+        # a preliminary trace of the same shot: a deterministic function of the case)
+        case["event_pick"] = draw(st.integers(0, 5))
+        case["frac"] = draw(st.floats(0.02, 0.98))
+        case["divisor"] = draw(st.sampled_from([1.0, 3.7, 2.3, 10.0, 4.0]))
+    return case
 
 
 def _model(tr, look, y0):
@@ -83,7 +91,24 @@ def check(case):
     sh_ft = spec.get("sh", 0.0) / 12.0
     y0 = -math.cos(spec.get("cant", 0.0)) * sh_ft
     barrel_below = (spec.get("rel", 0.0) + spec.get("zero", 0.0)) * math.cos(spec.get("cant", 0.0)) < 0
-    tr, terr = build.trace(build.calculator(cfg), build.shot(spec), case["R"], extra=True)
+    # the trace runs a few steps past the requested range: an event whose crossing lies in the last step before the range
+    # end is detected at the first point beyond it, which the solver still visits (loop bound range + min_step)
+    h_cfg = cfg.get("max_calc_step_size_feet", 0.5)
+    R_req = case["R"]
+    if case["cls"] == "range-at-event":
+        pre, perr = build.trace(build.calculator(cfg), build.shot(spec), case["R"], extra=True)
+        pre = pre[:len(pre) - (1 if perr is not None else 0)]
+        pre_ev = _model(pre, look, y0)
+        pre_ev = [(i, f) for i, f in pre_ev if i >= 3]
+        if not pre_ev:
+            r.label("range-at-event:no-event")
+            return r
+        i, f = pre_ev[case["event_pick"] % len(pre_ev)]
+        R_req = pre[i - 1].x + case["frac"] * (pre[i].x - pre[i - 1].x)
+        case = dict(case, R=R_req, step=R_req / case["divisor"])
+        r.label("range-inside-event-step")
+    min_step = min(h_cfg / 2.0, case["step"])
+    tr, terr = build.trace(build.calculator(cfg), build.shot(spec), R_req + 4.0 * h_cfg, extra=True)
     n = len(tr) - (1 if terr is not None else 0)
     pts = tr[:n]
     if any(pts[i + 1].x < pts[i].x for i in range(len(pts) - 1)):
@@ -94,13 +119,23 @@ def check(case):
     # ZERO_DOWN, which cannot occur without a ZERO_UP first: same events
     if y0 == 0:
         ev = [e for e in ev if not (e[1] == ZD and e[0] <= 2)]  # don't-care
+    # events the request must contain: detection point inside the solver's loop bound; events it may contain in addition:
+    # detection point up to one ground step further (a tail wind stretches the last step)
+    ev_all = ev
+    ev = [(i, f) for i, f in ev_all if pts[i].x <= R_req + min_step * (1 - 1e-9)]
+    ev_may = [(i, f) for i, f in ev_all if pts[i].x <= R_req + min_step + (pts[i].x - pts[i - 1].x)]
+    if terr is None:
+        pts_chk = [p for p in pts if p.x <= R_req + 3.0 * h_cfg]
+    else:
+        pts_chk = pts
     # 1. the trace's own flags
-    got = [(i, f) for i, p in enumerate(pts) for f in (ZU, ZD, MA) if p.flag & f]
+    got = [(i, f) for i, p in enumerate(pts_chk) for f in (ZU, ZD, MA) if p.flag & f]
+    ev_trace = [(i, f) for i, f in ev_all if i < len(pts_chk)]
     if y0 == 0:
         got = [e for e in got if not (e[1] == ZD and e[0] <= 2)]
-    if got != ev:
-        miss = [e for e in ev if e not in got]
-        extra = [e for e in got if e not in ev]
+    if got != ev_trace:
+        miss = [e for e in ev_trace if e not in got]
+        extra = [e for e in got if e not in ev_trace]
         kind = lambda f: {ZU: "zero-up", ZD: "zero-down", MA: "mach"}[f]
         if miss:
             i, f = miss[0]
@@ -131,10 +166,14 @@ def check(case):
     if y0 == 0:
         flagged = [(row, f) for row, f in flagged if not (f == ZD and row.time <= pts[min(2, len(pts) - 1)].t)]
     kind = lambda f: {ZU: "zero-up", ZD: "zero-down", MA: "mach"}[f]
-    if [f for _, f in flagged] != [f for _, f in ev]:
+    fk = [f for _, f in flagged]
+    if fk[:len(ev)] != [f for _, f in ev] or fk != [f for _, f in ev_may][:len(fk)]:
         r.bad("C15:request-events-differ-from-crossings", f"request rows carry events {[kind(f) for _, f in flagged]}, the trajectory's "
-              f"crossings are {[kind(f) for _, f in ev]}", model=[(i, kind(f)) for i, f in ev][:8])
+              f"crossings detected within the range are {[kind(f) for _, f in ev]}"
+              + (f" (optionally followed by {[kind(f) for _, f in ev_may[len(ev):]]})" if len(ev_may) > len(ev) else ""),
+              model=[(i, kind(f), pts[i].x) for i, f in ev_may][:8], range=R_req)
     else:
+        ev = ev_may[:len(fk)]
         tl = math.tan(look)
         for (row, f), (i, _) in zip(flagged, ev):
             a, b = pts[i - 1], pts[i]
